@@ -668,6 +668,56 @@ func c13EndToEnd(r *ev.Run) {
 			}
 		}
 
+		// large values: there is no size at which a compressed value stops reading back whole
+		if t == thresholds[0] {
+			sizes := []int{1<<20 + 7, 4<<20 - 1, 4 << 20, 4<<20 + 1, 6<<20 + 3}
+			if r.Tier == "thorough" {
+				sizes = append(sizes, 16<<20+5, 40<<20+1)
+			}
+			for si, l := range sizes {
+				v := make([]byte, l)
+				kind := "zeros"
+				if si%2 == 1 {
+					kind = "periodic"
+					for i := range v {
+						v[i] = byte('a' + i%7)
+					}
+				} else {
+					for i := range v {
+						v[i] = '0'
+					}
+				}
+				copy(v, fmt.Sprintf("large.%d|", l))
+				key := fmt.Sprintf("large.%d.%d", t, l)
+				for _, wr := range []string{"SET", "HSET"} {
+					var werr error
+					var rd []string
+					if wr == "SET" {
+						_, werr = conn.Do(60*time.Second, []byte("SET"), []byte(key), append([]byte{}, v...))
+						rd = []string{"GET", key}
+					} else {
+						_, werr = conn.Do(60*time.Second, []byte("HSET"), []byte(key+".h"), []byte("f"), append([]byte{}, v...))
+						rd = []string{"HGET", key + ".h", "f"}
+					}
+					if werr != nil {
+						r.Violation("C13:no-reply", "no reply to a write of a large value under compression", map[string]interface{}{"command": wr, "len": l, "error": werr.Error()})
+						break
+					}
+					got, err := conn.DoS(60*time.Second, rd...)
+					if err != nil || got.Kind != resp.Bulk || !bytes.Equal(got.Str, v) {
+						gl := -1
+						if got.Kind == resp.Bulk {
+							gl = len(got.Str)
+						}
+						r.Violation("C13:e2e-read-back-large:"+strings.ToLower(rd[0]), "a large compressible value written through the proxy does not read back byte-identical",
+							map[string]interface{}{"write": wr, "len_written": l, "len_read_back": gl, "read_back_starts": abbrevArg(got.Str), "value_kind": kind, "threshold": t, "error": fmt.Sprint(err)})
+					}
+					r.Count("e2e_large_roundtrips", 1)
+					r.Case(fmt.Sprintf("e2e/large/%s/%d/%s", wr, l, kind))
+				}
+			}
+		}
+
 		// compression switched off, then on again: earlier values still read back
 		key := fmt.Sprintf("toggle.%d", t)
 		v, _ := genCpsValue(rnd, int(t)+500)
